@@ -154,3 +154,330 @@ Proof.
       now apply (tri_index_fix Q (nc T) i HQ Hl).
   - rewrite Hsup by assumption. now apply get_out_row.
 Qed.
+
+(** * (c) encodings *)
+Lemma done_spec_gen A g r c A' S P Q :
+  wf A -> Inv A g (nthf P) (nthf Q) r c -> Fin g r c ->
+  length P = nr A -> length Q = nc A -> lapack P (nr A) -> lapack Q (nc A) ->
+  (forall i, r <= i -> i < nr A -> nth i P 0 = i) ->
+  wf A' -> nr A' = nr A -> nc A' = nc A ->
+  (forall i j, r <= i -> r <= j -> get A' i j = false) ->
+  full_format g Q r (nc A) S ->
+  plu_struct A r A' P Q /\ plu_recon A r S P Q.
+Proof.
+  intros HA HI HF HP HQ LP LQ Pid HA' Hnr Hnc Hz HS.
+  pose proof (fin_r_le_m A g _ _ r c HI) as Hrm. pose proof (fin_r_le_n A g _ _ r c HI) as Hrn.
+  assert (EQ : firstn r Q = map (nthf Q) (seq 0 r)) by (apply firstn_map_nth; lia).
+  pose proof (fin_crp A HA g _ _ r c HI HF) as Hcrp.
+  split.
+  - unfold plu_struct. rewrite EQ. splits; auto. apply Hcrp.
+  - unfold plu_recon.
+    destruct (get_apply_p_left A P HA HP LP) as (Hw1 & Hr1 & Hc1 & Hg1).
+    destruct (get_apply_p_right_trans (apply_p_left A P) Q Hw1) as (Hw2 & Hr2 & Hc2 & Hg2);
+      [now rewrite Hc1|now rewrite Hc1|].
+    apply mat_ext; auto.
+    + apply wf_mmul; [apply wf_plu_L|apply wf_plu_U].
+    + now rewrite Hr2, Hr1.
+    + now rewrite Hc2, Hc1.
+    + intros i j Hi Hj. rewrite Hr2, Hr1 in Hi. rewrite Hc2, Hc1 in Hj.
+      rewrite Hg2, Hg1, Hc1. change (fun t => nth t P 0) with (nthf P). change (fun t => nth t Q 0) with (nthf Q).
+      replace (nr A) with (r + (nr A - r)) at 1 by lia.
+      rewrite pi_id_tail by (intros t H1 H2; apply Pid; lia).
+      set (tau := pi (nthf Q) (seq r (nc A - r))).
+      assert (Epi : forall x, pi (nthf Q) (seq 0 (nc A)) x = pi (nthf Q) (seq 0 r) (tau x)).
+      { intros x. unfold tau. rewrite <- pi_app, <- seq_app. do 2 f_equal. lia. }
+      assert (Tin : forall t, In t (seq r (nc A - r)) -> r <= t /\ r <= nthf Q t).
+      { intros t Ht. apply in_seq in Ht. pose proof (LQ t ltac:(lia)). unfold nthf. lia. }
+      assert (Tlt : tau j < nc A).
+      { apply pi_lt; [|assumption]. intros t Ht. apply in_seq in Ht. pose proof (LQ t ltac:(lia)). unfold nthf. lia. }
+      assert (Tlo : forall x, x < r -> tau x = x) by (intros x Hx; now apply (pi_lt_fix _ _ r)).
+      assert (Thi : r <= j -> r <= tau j) by (intros H; now apply pi_ge).
+      rewrite Epi.
+      rewrite (fin_recon A g _ _ r c HI HF (fun i j => g i (pi (nthf Q) (seq 0 r) j)) i (tau j)
+                 ltac:(reflexivity) Hi Tlt).
+      rewrite get_plu_LU. apply xsum_ext. intros k Hk. unfold plu_L, plu_U.
+      rewrite get_unit_lower_rect, get_unit_upper_rect.
+      destruct (Nat.ltb_spec i (nr A)); [|lia]. destruct (Nat.ltb_spec k r); [|lia].
+      destruct (Nat.ltb_spec j (nc A)); [|lia]. destruct (Nat.ltb_spec (tau j) (nc A)); [|lia].
+      cbn [andb]. f_equal.
+      * (* L *)
+        assert (ES : offdiag r i k -> get S i k = g i (pi (nthf Q) (seq 0 r) k)).
+        { intros Ho. rewrite (HS i k Ho), Epi, Tlo by assumption. reflexivity. }
+        destruct (Nat.ltb_spec i r).
+        -- destruct (Nat.eqb_spec i k); [reflexivity|]. cbn [orb].
+           destruct (Nat.ltb_spec k i); [|reflexivity]. cbn [andb]. symmetry. apply ES. left. lia.
+        -- f_equal. symmetry. apply ES. now right.
+      * (* U *)
+        destruct (Nat.lt_ge_cases j r) as [Hjr|Hjr].
+        -- rewrite Tlo by assumption.
+           destruct (Nat.eqb_spec k j); [reflexivity|]. cbn [orb].
+           destruct (Nat.ltb_spec k j); [|reflexivity]. cbn [andb].
+           rewrite (HS k j) by (left; lia). rewrite Epi, Tlo by assumption. reflexivity.
+        -- pose proof (Thi Hjr).
+           destruct (Nat.eqb_spec k j); [lia|]. destruct (Nat.eqb_spec k (tau j)); [lia|].
+           destruct (Nat.ltb_spec k j); [|lia]. destruct (Nat.ltb_spec k (tau j)); [|lia]. cbn [orb andb].
+           rewrite (HS k j) by (left; lia). now rewrite Epi.
+Qed.
+
+Record ple_enc (A : mat) (g : nat -> nat -> bool) (r : nat) (T : mat) (P Q : list nat) : Prop := {
+  enc_inv : Inv A g (nthf P) (nthf Q) r (nc A);
+  enc_wf : wf T;
+  enc_nr : nr T = nr A;
+  enc_nc : nc T = nc A;
+  enc_lenP : length P = nr A;
+  enc_lenQ : length Q = nc A;
+  enc_lapP : lapack P (nr A);
+  enc_lapQ : lapack Q (nc A);
+  enc_Pid : forall i, r <= i -> i < nr A -> nth i P 0 = i;
+  enc_fmt : ple_format g Q r (nc A) T
+}.
+
+Lemma inv_fin_n A g p q r : Inv A g p q r (nc A) -> Fin g r (nc A).
+Proof. intros HI i j _ Hj. apply (inv_sup A g p q r _ HI). now right. Qed.
+
+(** rows >= r carry only multipliers: they vanish off the pivot columns *)
+Lemma inv_row_below A g p q r i c : Inv A g p q r (nc A) -> r <= i ->
+  (forall k, k < r -> c <> q k) -> g i c = false.
+Proof.
+  intros HI Hi Hnp. destruct (Nat.lt_ge_cases c (nc A)) as [Hc|Hc].
+  - apply (inv_zero A g p q r _ HI); [|assumption]. destruct (Nat.ltb_spec i r); [lia|assumption].
+  - apply (inv_sup A g p q r _ HI). now right.
+Qed.
+
+(** reading a row >= r through any prefix (of length >= r) of the column swaps *)
+Lemma row_below_read A g P Q r i k j : Inv A g (nthf P) (nthf Q) r (nc A) -> lapack Q (nc A) ->
+  length Q = nc A -> r <= i -> r <= k -> k <= nc A ->
+  g i (pi (nthf Q) (seq 0 k) j) = if j <? r then g i (nthf Q j) else false.
+Proof.
+  intros HI LQ HlQ Hi Hk Hkn.
+  replace k with (r + (k - r)) by lia. rewrite seq_app, pi_app. cbn [Nat.add].
+  assert (Tin : forall t, In t (seq r (k - r)) -> r <= t /\ r <= nthf Q t).
+  { intros t Ht. apply in_seq in Ht. pose proof (LQ t ltac:(lia)). unfold nthf. lia. }
+  destruct (Nat.ltb_spec j r) as [Hj|Hj].
+  - rewrite (pi_lt_fix (nthf Q) (seq r (k - r)) r j Tin Hj).
+    now rewrite (fin_piq_piv A g _ _ r _ HI j Hj).
+  - apply (inv_row_below A g _ _ r i _ HI Hi).
+    apply (fin_piq_nonpiv A g _ _ r _ HI). now apply pi_ge.
+Qed.
+
+Lemma enc_zero A g r T P Q : ple_enc A g r T P Q -> forall i j, r <= i -> r <= j -> get T i j = false.
+Proof.
+  intros [HI HT Hnr Hnc HlP HlQ LP LQ Pid Hf] i j Hi Hj.
+  rewrite Hf by now right.
+  pose proof (fin_r_le_n A g _ _ r _ HI) as Hrn.
+  destruct (Nat.le_gt_cases (S i) (nc A)).
+  - rewrite Nat.min_l by assumption.
+    rewrite (row_below_read A g P Q r i (S i) j HI LQ HlQ) by lia.
+    destruct (Nat.ltb_spec j r); [lia|reflexivity].
+  - rewrite Nat.min_r by lia.
+    rewrite (row_below_read A g P Q r i (nc A) j HI LQ HlQ) by lia.
+    destruct (Nat.ltb_spec j r); [lia|reflexivity].
+Qed.
+
+Theorem spec_of_enc A g r T P Q : wf A -> ple_enc A g r T P Q -> ple_spec A ((r, T), (P, Q)).
+Proof.
+  intros HA He. pose proof (enc_zero A g r T P Q He) as Hz.
+  destruct He as [HI HT Hnr Hnc HlP HlQ LP LQ Pid Hf].
+  unfold ple_spec. apply (done_spec_gen A g r (nc A)); auto.
+  - now apply (inv_fin_n A g (nthf P) (nthf Q)).
+  - rewrite <- Hnc. apply format_to_tri; try (rewrite Hnc; assumption); try assumption.
+    intros i j Hi. apply (inv_sup A g _ _ r _ HI). left. lia.
+Qed.
+
+(** ** every output meeting the specification is an encoding *)
+Section EncOfSpec.
+  Variables (A : mat) (r : nat) (T : mat) (P Q : list nat).
+  Hypothesis HA : wf A.
+  Hypothesis Hs : plu_struct A r T P Q.
+  Let S := apply_p_right_trans_tri T Q.
+  Hypothesis Hrec : plu_recon A r S P Q.
+  Let m := nr A.
+  Let n := nc A.
+  Let q := nthf Q.
+  Let rho := pi_inv q (seq 0 n).
+  Let ppi := pi q (seq 0 n).
+
+  Definition enc_g : nat -> nat -> bool :=
+    fun i c => if (i <? r) && (c =? q i) then true else get S i (rho c).
+
+  Let HT : wf T := plu_wf _ _ _ _ _ Hs.
+  Let Hnr : nr T = m := plu_nr _ _ _ _ _ Hs.
+  Let Hnc : nc T = n := plu_nc _ _ _ _ _ Hs.
+  Let Hrm : r <= m := plu_r_le_nr _ _ _ _ _ Hs.
+  Let Hrn : r <= n := plu_r_le_nc _ _ _ _ _ Hs.
+  Let HlQ : length Q = n := plu_len_Q _ _ _ _ _ Hs.
+  Let HlP : length P = m := plu_len_P _ _ _ _ _ Hs.
+  Let LQ : lapack Q n := plu_lapack_Q _ _ _ _ _ Hs.
+  Let LP : lapack P m := plu_lapack_P _ _ _ _ _ Hs.
+
+  Lemma eos_wf_S : wf S /\ nr S = m /\ nc S = n.
+  Proof.
+    unfold S. splits; [apply wf_tri; [assumption|now rewrite Hnc]|now rewrite nr_tri|now rewrite nc_tri].
+  Qed.
+
+  Lemma eos_touch t : In t (seq 0 n) -> t < n /\ q t < n.
+  Proof. intros Ht. apply in_seq in Ht. pose proof (LQ t ltac:(lia)). unfold q, nthf. lia. Qed.
+
+  Lemma eos_rho_lt c : c < n -> rho c < n.
+  Proof. apply pi_inv_lt. apply eos_touch. Qed.
+  Lemma eos_rho_hi c : n <= c -> rho c = c.
+  Proof. intros Hc. apply pi_inv_fix. intros t Ht. apply eos_touch in Ht. lia. Qed.
+  Lemma eos_pi_piv k : k < r -> ppi k = q k.
+  Proof. apply (pe_pi_piv A r T P Q Hs). Qed.
+  Lemma eos_rho_piv k : k < r -> rho (q k) = k.
+  Proof. intros Hk. rewrite <- eos_pi_piv by assumption. apply pi_inv_pi. Qed.
+  Lemma eos_rho_nonpiv c : (forall k, k < r -> c <> q k) -> r <= rho c.
+  Proof.
+    intros Hnp. destruct (Nat.le_gt_cases r (rho c)) as [H|H]; [assumption|].
+    exfalso. apply (Hnp (rho c) H). rewrite <- eos_pi_piv by assumption. symmetry. apply pi_pi_inv.
+  Qed.
+  Lemma eos_q_inj k k' : k < r -> k' < r -> q k = q k' -> k = k'.
+  Proof.
+    intros Hk Hk' E. destruct (lt_eq_lt_dec k k') as [[H|H]|H]; [|assumption|].
+    - pose proof (pe_q_inc A r T P Q Hs k k' H Hk'). unfold q, nthf in E. lia.
+    - pose proof (pe_q_inc A r T P Q Hs k' k H Hk). unfold q, nthf in E. lia.
+  Qed.
+
+  (** rows >= r of S are those of T: zero beyond column r *)
+  Lemma eos_below i j : r <= i -> r <= j -> get S i j = false.
+  Proof.
+    intros Hi Hj. destruct eos_wf_S as (HwS & HrS & HcS).
+    destruct (Nat.lt_ge_cases i m) as [Hlt|Hge]; [|apply get_out_row; [assumption|lia]].
+    unfold get, S. rewrite (tri_rows_below T Q r i HT); try assumption; try lia.
+    - apply (plu_zero _ _ _ _ _ Hs); assumption.
+    - now rewrite Hnc.
+    - intros j' Hj'. now apply (plu_zero _ _ _ _ _ Hs).
+  Qed.
+
+  (** the echelon shape, in terms of S *)
+  Lemma eos_echelon i c : i < r -> c < q i -> r <= rho c -> get S i (rho c) = false.
+  Proof.
+    intros Hi Hc Hr.
+    pose proof (pe_before A r T S P Q HA Hs Hrec i c Hi Hc) as H.
+    rewrite (pe_get_E A r T S P Q Hs) in H. destruct (Nat.ltb_spec i r); [|lia]. cbn [andb] in H.
+    replace c with (ppi (rho c)) in H by apply pi_pi_inv.
+    unfold ppi, q, nthf in H. rewrite <- (pe_get_U A r T S P Q Hs) in H.
+    unfold plu_U in H. rewrite get_unit_upper_rect in H.
+    assert (Hq : i <= q i < n) by apply (pe_q_range A r T P Q Hs i Hi).
+    pose proof (eos_rho_lt c ltac:(lia)) as Hlt. fold n in H.
+    destruct (Nat.ltb_spec i r); [|lia]. destruct (Nat.ltb_spec (rho c) n); [|lia].
+    destruct (Nat.eqb_spec i (rho c)); [lia|]. destruct (Nat.ltb_spec i (rho c)); [|lia].
+    exact H.
+  Qed.
+
+  Lemma eos_sup i j : m <= i \/ n <= j -> enc_g i j = false.
+  Proof.
+    destruct eos_wf_S as (HwS & HrS & HcS). intros [H|H]; unfold enc_g.
+    - destruct (Nat.ltb_spec i r); [lia|]. cbn [andb]. apply get_out_row; [assumption|lia].
+    - destruct (Nat.ltb_spec i r) as [Hi|Hi]; cbn [andb].
+      + assert (Hq : i <= q i < n) by apply (pe_q_range A r T P Q Hs i Hi).
+        destruct (Nat.eqb_spec j (q i)); [lia|]. rewrite eos_rho_hi by assumption.
+        apply get_out_col; [assumption|lia].
+      + rewrite eos_rho_hi by assumption. apply get_out_col; [assumption|lia].
+  Qed.
+
+  Lemma eos_g_piv i k : k < r -> k <> i -> enc_g i (q k) = get S i k.
+  Proof.
+    intros Hk Hne. unfold enc_g. rewrite eos_rho_piv by assumption.
+    destruct (Nat.ltb_spec i r) as [Hi|Hi]; cbn [andb]; [|reflexivity].
+    destruct (Nat.eqb_spec (q k) (q i)) as [E|_]; [|reflexivity].
+    apply eos_q_inj in E; auto. lia.
+  Qed.
+
+  Lemma eos_inv : Inv A enc_g (nthf P) (nthf Q) r n.
+  Proof.
+    destruct eos_wf_S as (HwS & HrS & HcS).
+    constructor.
+    - exact Hrm.
+    - apply le_n.
+    - intros k Hk. apply LP. lia.
+    - intros k Hk. apply (pe_q_range A r T P Q Hs k Hk).
+    - intros k k' H1 H2. apply (pe_q_inc A r T P Q Hs k k' H1 H2).
+    - exact eos_sup.
+    - intros k Hk. unfold enc_g. destruct (Nat.ltb_spec k r); [|lia]. fold q. now rewrite Nat.eqb_refl.
+    - (* echelon zeros *)
+      intros i j Hj Hnp. fold q in Hnp. unfold enc_g.
+      pose proof (eos_rho_nonpiv j Hnp) as Hr.
+      destruct (Nat.ltb_spec i r) as [Hi|Hi]; cbn [andb].
+      + fold (q i) in Hj. destruct (Nat.eqb_spec j (q i)); [lia|]. now apply eos_echelon.
+      + now apply eos_below.
+    - (* the factorisation *)
+      intros i j Hi. fold q.
+      destruct (Nat.lt_ge_cases j n) as [Hj|Hj].
+      2:{ unfold Rg. rewrite (eos_sup i j) by now right. rewrite andb_false_r, xorb_false_r.
+          rewrite (get_out_col A) by assumption. symmetry. apply xsum_zero. intros k Hk.
+          unfold Eg. rewrite (eos_sup k j) by now right. now rewrite !andb_false_r. }
+      replace (Rg enc_g r n i j) with false
+        by (unfold Rg; destruct (Nat.leb_spec n j); [lia|]; now rewrite andb_false_r).
+      rewrite xorb_false_r.
+      set (j0 := rho j). assert (Hj0 : j0 < n) by now apply eos_rho_lt.
+      assert (Ej : ppi j0 = j) by apply pi_pi_inv.
+      (* the reconstruction at (i, j0) *)
+      pose proof Hrec as E. unfold plu_recon in E.
+      destruct (get_apply_p_left A P HA HlP LP) as (Hw1 & Hr1 & Hc1 & Hg1).
+      destruct (get_apply_p_right_trans (apply_p_left A P) Q Hw1) as (Hw2 & Hr2 & Hc2 & Hg2);
+        [now rewrite Hc1|now rewrite Hc1|].
+      apply (f_equal (fun M => get M i j0)) in E. rewrite Hg2, Hg1, Hc1 in E.
+      change (fun t => nth t P 0) with (nthf P) in E. change (fun t => nth t Q 0) with q in E.
+      fold n in E. fold ppi in E. rewrite Ej in E.
+      replace (nr A) with (r + (m - r)) in E by (unfold m; lia).
+      rewrite pi_id_tail in E by (intros t H1 H2; apply (plu_P_id _ _ _ _ _ Hs); unfold m in *; lia).
+      rewrite E, get_plu_LU. apply xsum_ext. intros k Hk. unfold plu_L, plu_U.
+      rewrite get_unit_lower_rect, get_unit_upper_rect. fold m n.
+      destruct (Nat.ltb_spec i m); [|lia]. destruct (Nat.ltb_spec k r); [|lia].
+      destruct (Nat.ltb_spec j0 n); [|lia]. cbn [andb]. f_equal.
+      + (* L *)
+        unfold Lg. destruct (Nat.ltb_spec i r) as [Hir|Hir].
+        * destruct (Nat.eqb_spec i k); [reflexivity|]. cbn [orb].
+          destruct (Nat.ltb_spec k i); [|reflexivity]. cbn [andb]. symmetry. apply eos_g_piv; lia.
+        * destruct (Nat.eqb_spec i k); [lia|]. destruct (Nat.ltb_spec k i); [|lia]. cbn [orb andb].
+          symmetry. apply eos_g_piv; lia.
+      + (* U *)
+        unfold Eg. assert (Hqk : k <= q k < n) by apply (pe_q_range A r T P Q Hs k Hk).
+        destruct (Nat.eq_dec j0 k) as [E0|Hne].
+        * assert (Ejq : j = q k) by (rewrite <- Ej, E0; now apply eos_pi_piv).
+          rewrite E0, Nat.eqb_refl, Ejq, Nat.leb_refl. cbn [orb andb].
+          unfold enc_g. destruct (Nat.ltb_spec k r); [|lia]. now rewrite Nat.eqb_refl.
+        * assert (Hjq : j <> q k).
+          { intros E'. apply Hne. unfold j0. rewrite E'. now apply eos_rho_piv. }
+          destruct (Nat.eqb_spec k j0); [lia|]. cbn [orb].
+          assert (Eg' : enc_g k j = get S k j0).
+          { unfold enc_g. destruct (Nat.eqb_spec j (q k)); [contradiction|]. now rewrite andb_false_r. }
+          rewrite Eg'.
+          destruct (Nat.ltb_spec k j0) as [Hlt|Hge]; cbn [andb].
+          -- destruct (Nat.leb_spec (q k) j) as [Hle|Hgt]; [reflexivity|]. cbn [andb].
+             destruct (Nat.le_gt_cases r j0) as [Hrj|Hrj].
+             ++ now apply eos_echelon.
+             ++ (* j0 < r, k < j0: then j = q j0 > q k *)
+                exfalso. rewrite <- Ej, eos_pi_piv in Hgt by assumption.
+                pose proof (pe_q_inc A r T P Q Hs k j0 Hlt Hrj). unfold q, nthf in Hgt. lia.
+          -- (* j0 < k: j = q j0 < q k *)
+             assert (Hj0k : j0 < k) by lia.
+             rewrite <- Ej, eos_pi_piv by lia.
+             pose proof (pe_q_inc A r T P Q Hs j0 k Hj0k Hk). unfold q, nthf.
+             destruct (Nat.leb_spec (nth k Q 0) (nth j0 Q 0)); [lia|reflexivity].
+  Qed.
+
+  Lemma eos_full : full_format enc_g Q r n S.
+  Proof.
+    intros i j Ho. fold q ppi. unfold enc_g. fold rho. unfold rho, ppi. rewrite pi_inv_pi.
+    destruct (Nat.ltb_spec i r) as [Hi|Hi]; cbn [andb]; [|reflexivity].
+    destruct (Nat.eqb_spec (pi q (seq 0 n) j) (q i)) as [E|_]; [|reflexivity].
+    exfalso. fold ppi in E. rewrite <- eos_pi_piv in E by assumption. apply pi_inj in E.
+    destruct Ho; lia.
+  Qed.
+
+  Theorem enc_of_spec_sec : ple_enc A enc_g r T P Q.
+  Proof.
+    constructor; auto.
+    - exact eos_inv.
+    - apply (plu_P_id _ _ _ _ _ Hs).
+    - fold n. rewrite <- Hnc. apply tri_to_format; try (rewrite Hnc; assumption); try assumption.
+      + intros i j Hi. apply eos_sup. left. lia.
+      + rewrite Hnc. exact eos_full.
+  Qed.
+End EncOfSpec.
+
+Theorem enc_of_spec A r T P Q : wf A -> ple_spec A ((r, T), (P, Q)) ->
+  ple_enc A (enc_g A r T Q) r T P Q.
+Proof. intros HA [Hs Hrec]. now apply enc_of_spec_sec. Qed.
